@@ -339,6 +339,10 @@ class ScriptedSim(mosaik_api_v3.Simulator):
         self._rec(op="fault", sid=self.sid, how=how, kind=kind)
         if how == "raise":
             raise RuntimeError(f"injected failure in {self.sid}.{kind}")
+        if how.startswith("raise_"):
+            exc = {"TypeError": TypeError, "ValueError": ValueError, "KeyError": KeyError,
+                   "ConnectionError": ConnectionError, "AssertionError": AssertionError}[how[6:]]
+            raise exc(f"injected failure in {self.sid}.{kind}")
         if how == "exit":
             os._exit(3)
         if how == "close":
@@ -374,4 +378,8 @@ class ScriptedSim(mosaik_api_v3.Simulator):
             "less": time - 1,
             "none": None,
             "zero": 0,
+            # malformed values that lie at or after the end of the simulation
+            "float_until": float(self.until_hint if self.until_hint is not None else time + 1),
+            "float_beyond": (self.until_hint if self.until_hint is not None else time + 1) + 0.5,
+            "str_beyond": str((self.until_hint or time) + 3),
         }[how]
